@@ -1,13 +1,14 @@
 #!/bin/bash
 # usage: harmless_all.sh [P] [ids...]   runs every harmless/<ID>-k (or the given ones) through tools/harmless.py; writes harmless/RESULTS.txt
 cd /verif; P=${1:-4}; shift
-ids=${@:-$(ls -d harmless/C??-? | xargs -n1 basename)}
+ids=${@:-$(ls -d harmless/C??-[0-9]* | xargs -n1 basename)}
 printf '%s\n' $ids | xargs -P $P -I{} sh -c 'r=$(timeout 3000 python3 tools/harmless.py harmless/{} 2>&1 | grep -E "\"silent\"|\"VIOLATION" | tr -d "\n" | cut -c1-200); echo "{}: $r"' | sort > /tmp/harmless_results.txt
 python3 - <<PY
 import json,glob
 rows=[]
 for f in sorted(glob.glob("/verif/harmless/*/result.json")):
-  r=json.load(open(f)); rows.append(f"{f.split(chr(47))[3]}: silent={r['silent']} exit={r['exit']} base={r.get('base')}")
+  r=json.load(open(f)); m=json.load(open(f.replace("result.json","meta.json")))
+  rows.append(f"{f.split(chr(47))[3]}: silent={r['silent']} exit={r['exit']} base={r.get('base')}" + (" NOT-HARMLESS(the rewrite breaks the property; alarm is correct)" if m.get("not_harmless") else ""))
 open("/verif/harmless/RESULTS.txt","w").write(chr(10).join(rows)+chr(10))
 PY
-echo "silent: $(grep -c "silent=True" harmless/RESULTS.txt) alarms: $(grep -c "silent=False" harmless/RESULTS.txt)"
+echo "silent: $(grep -c "silent=True" harmless/RESULTS.txt) alarms: $(grep "silent=False" harmless/RESULTS.txt | grep -vc NOT-HARMLESS) correctly-flagged-as-breaking: $(grep -c NOT-HARMLESS harmless/RESULTS.txt)"
